@@ -151,6 +151,9 @@ func (i *NetflowV9) run() {
 		netflowV9UDPCh <- NetflowV9UDPMsg{raddr, b[:n]}
 	}
 
+	// no more datagrams are queued: let the workers finish and leave
+	close(netflowV9UDPCh)
+
 }
 
 func (i *NetflowV9) shutdown() {
@@ -169,9 +172,7 @@ func (i *NetflowV9) shutdown() {
 		logger.Println("couldn't not dump template", err)
 	}
 
-	// logging and close UDP channel
 	logger.Println("netflow v9 has been shutdown")
-	close(netflowV9UDPCh)
 }
 
 func (i *NetflowV9) netflowV9Worker(wQuit chan struct{}) {
